@@ -189,6 +189,11 @@ func RunHistoryShard(t *testing.T, env *ShardEnv) *ShardReport {
 	nt := map[uint64]bool{}
 	states := map[uint64]bool{}
 	unknown := 0
+	racePass := os.Getenv("VERIF_RACE_PASS") == "1"
+	if racePass {
+		theRaceLog = newRaceLog()
+		rep.Probes["race-built-shards"]++
+	}
 	for i := 0; ; i++ {
 		if env.MaxRuns > 0 && i >= env.MaxRuns {
 			break
@@ -209,6 +214,13 @@ func RunHistoryShard(t *testing.T, env *ShardEnv) *ShardReport {
 		}
 		rep.Evaluations++
 		rep.absorb(w.st)
+		if racePass && w.viol == nil {
+			if sig, detail, _ := theRaceLog.poll(); sig != "" {
+				rep.Probes["race-pass-reports"]++
+				sig = strings.Replace(sig, "C11/data-race/", env.Prop+"/data-race-in-flush/", 1)
+				w.viol = &Violation{Prop: env.Prop, Sig: sig, Detail: "race detector report with mast frames during a history run (race-built shard):\n" + detail, OpIdx: len(sc.Ops) - 1}
+			}
+		}
 		if nontrivial(env.Prop, w) {
 			a, b := runHash(sc, w)
 			nt[a] = true
